@@ -71,6 +71,8 @@ def norm_runs(P, tier, full=True):
     if full:
         rs += [R('norm-case', 'h_norm.c', P + NORM_CASE, '[scheme] [//authority with every host kind] path<=1: letters of scheme and host symbolic over both cases; masks {0, each single bit, all, required}', [cov0, 'host-ip4', 'host-ip6', 'host-ipfuture', 'host-regname'], 400),
                R('norm-pct', 'h_norm.c', P + (NORM_PCT_T if tier == 'thorough' else NORM_PCT_Q), 'one percent-encoded triplet with symbolic hex digits at any position of host / path / query (thorough: also user info, fragment)', [cov0], 2400 if tier == 'thorough' else 600)]
+    if full:
+        rs.append(R('norm-host-pct-case', 'h_norm.c', P + ['KN=0', 'SEGL=1', 'GEN_ALPHA_CASE', 'NFLAGS=(G_AUTH_REQ|G_PCT)', 'MASKS=0,4,63'], 'reg-name hosts of 1..2 tokens, each a letter of either case or a percent triplet with symbolic hex digits (case folding next to percent-encodings)', [cov0], 600))
     if tier == 'thorough':
         rs.append(R('norm-fullmask', 'h_norm.c', P + ['KN=1', 'SEGL=1', 'FULLMASK', 'GEN_ALPHA_CASE', 'NFLAGS=(G_SCHEME_OPT|G_AUTH|G_QUERY)'], 'all 64 masks (symbolic mask byte) on [scheme] [//host] path<=1 [?q]', [cov0], 2400))
     return rs
@@ -86,6 +88,7 @@ def shorten_runs(P, tier):
     P = ['P_' + p for p in P]
     rs = [R('shorten-paths', 'h_shorten.c', P + SHORT, 'S and B: scheme [//host] <=2 segments of <=1 char over [a-z.]; both modes', ['schemes-differ', 'same-authority-domain-root', 'same-authority-relative'], 600),
           R('shorten-authority', 'h_shorten.c', P + ['KS=1', 'KB=1', 'SEGL=1', 'SFLAGS=(G_SCHEME_REQ|G_AUTH_REQ|G_USERINFO|G_PORT)', 'BFLAGS=(G_SCHEME_REQ|G_AUTH_REQ|G_USERINFO|G_PORT)'], 'S and B with user info none/empty/1 char and port none/empty/1 digit, <=1 segment', ['same-authority-relative'], 600),
+          R('shorten-hostkinds', 'h_shorten.c', P + ['KS=1', 'KB=1', 'SEGL=1', 'SFLAGS=(G_SCHEME_REQ|G_AUTH_REQ|G_HOSTKINDS)', 'BFLAGS=(G_SCHEME_REQ|G_AUTH_REQ|G_HOSTKINDS)'], 'S and B with every host kind (reg-name, IPv4, IPv6, IPvFuture; symbolic digits), <=1 segment', ['same-authority-relative', 'schemes-differ'], 600),
           R('shorten-nonabsolute', 'h_shorten.c', P + ['KS=1', 'KB=1', 'SEGL=1', 'SFLAGS=(G_SCHEME_OPT|G_AUTH)', 'BFLAGS=(G_SCHEME_OPT|G_AUTH)'], 'S or B without scheme (error codes)', ['non-absolute-rejected'], 300)]
     if tier == 'thorough':
         rs.append(R('shorten-paths-3', 'h_shorten.c', P + ['KS=3', 'KB=3', 'SEGL=1', 'GEN_PATH_COLON', 'SFLAGS=(G_SCHEME_REQ|G_AUTH|G_QUERY)', 'BFLAGS=(G_SCHEME_REQ|G_AUTH|G_QUERY)'], '<=3 segments over [a-z.:], optional queries', ['same-authority-relative'], 2400))
